@@ -678,3 +678,78 @@ def run_coupd_sense(prog, E=None, rule="R-COUPD"):
     res.counts["append_slot_stores_left_to_R-APPENDINIT"] = n_append[0]
     res.floor("sense store sites", nsites, 4)
     return res
+
+
+def run_skipgate(prog, prefix="mpq_", rule="R-SKIPGATE"):
+    """The solve entry points may answer from the cache instead of calling opt_work.  That short cut must be conditioned on everything
+    the edit functions use to announce that the cached answer is stale: the cache itself (free_cache), the basis, and factorok (reset by
+    every function that installs another basis or edits the matrix - R-FOK).  A short cut that ignores factorok (QSopt_primal on the
+    pinned tree) answers with the solution of the previous basis after QSload_basis / QSread_and_load_basis."""
+    from ..core import dominators
+    res = RuleResult(rule, "a solve entry point returns without calling opt_work only under tests of p->basis, p->cache and p->factorok")
+    need = {"basis", "cache", "factorok"}
+    n = 0
+    for f in sorted(prog.funcs.values(), key=lambda x: x.key):
+        if f.static or f.live is None or not f.name.startswith(prefix + "QSopt_"):
+            continue
+        work = [b["id"] for b, i, c in f.calls() if callee(c) == "opt_work"]
+        if not work:
+            continue
+        n += 1
+        res.obligations += 1
+        res.nontrivial += 1
+        dom, succ = dominators(prog, f)
+        # blocks from which the exit is reachable without passing an opt_work block, and which are not dominated by one
+        tested_on_skip = None
+        # fields tested in conditions from which BOTH an opt_work block and a path avoiding every opt_work block are reachable
+        def reach_avoiding(src, avoid):
+            seen, wl = {src}, [src]
+            while wl:
+                x = wl.pop()
+                if x == f.exit:
+                    return True
+                for s in succ.get(x, ()):
+                    if s not in seen and s not in avoid:
+                        seen.add(s)
+                        wl.append(s)
+            return False
+        if not reach_avoiding(f.entry, set(work)):
+            res.sample({"function": f.name, "verdict": "opt_work is called on every path"}, limit=6)
+            continue
+        fields = set()
+        for bid in f.live:
+            b = f.blocks[bid]
+            c = b.get("c")
+            if c is None or bid in work:
+                continue
+            ss = [s for s in succ.get(bid, ())]
+            if len(ss) != 2:
+                continue
+            # a deciding condition: one side must reach opt_work, the other can avoid it
+            def reaches_work(src):
+                seen, wl = {src}, [src]
+                while wl:
+                    x = wl.pop()
+                    if x in work:
+                        return True
+                    for s in succ.get(x, ()):
+                        if s not in seen:
+                            seen.add(s)
+                            wl.append(s)
+                return False
+            sides = [(reaches_work(s), reach_avoiding(s, set(work))) for s in ss]
+            if any(r for r, a in sides) and any(a for r, a in sides):
+                for nd in walk(c):
+                    if nd[0] == "m" and nd[2].split("::")[0].endswith("qsdata"):
+                        fields.add(nd[2].split("::")[1])
+        missing = sorted(need - fields)
+        if missing:
+            res.violations.append(Violation(rule, "%s|answers from the cache without testing %s" % (base(f.name), ",".join(missing)), f.name, short_loc(f.loc),
+                                            "%s can return without calling opt_work, and the decision tests %s but not p->%s: after an edit or a basis load that "
+                                            "announces itself through that field the cached answer of the previous solve is returned" % (
+                                                f.name, ", ".join("p->" + x for x in sorted(fields)) or "nothing", ", p->".join(missing))))
+        else:
+            res.sample({"function": f.name, "verdict": "short cut conditioned on " + ", ".join(sorted(fields))}, limit=6)
+    res.counts["solve_entry_points"] = n
+    res.floor("solve entry points calling opt_work", n, 2)
+    return res
